@@ -319,10 +319,13 @@ func (c *Campaign) Go() {
 	for i := range lcs {
 		lcs[i] = ev.NewLocal()
 	}
-	total := c.Roots * len(RootKinds)
+	// roots whose castling right is there but castling is not available get extra weight: whether a
+	// planted castling encoding ends up as the answer depends on it scoring best
+	kinds := append(append([]string(nil), RootKinds...), "blocked-castle", "blocked-castle", "blocked-castle", "blocked-castle")
+	total := c.Roots * len(kinds)
 	ev.Parallel(total, func(wk, i int) {
 		rng := r.RNG(c.Stream+"-mixed", i)
-		root, kind := RandomRoot(rng, RootKinds[i%len(RootKinds)])
+		root, kind := RandomRoot(rng, kinds[i%len(kinds)])
 		tt := ttSizes[rng.IntN(len(ttSizes))]
 		s := search.New(tt)
 		cs := &Case{Kind: "mixed", RootKind: kind, Start: root.Start.FEN(), Moves: root.MoveNames(), TTBytes: tt, Params: c.Params}
@@ -346,7 +349,16 @@ func (c *Campaign) Go() {
 		}
 		n := 2 + rng.IntN(6)
 		for k := 0; k < n; k++ {
-			c.one(cs, &root, s, randRequest(rng, tt), lcs[wk], wk)
+			q := randRequest(rng, tt)
+			if len(cs.Poison) > 0 && k < 2 {
+				// the planted move is tried first: a search that runs out of budget (or depth) right
+				// away returns whatever the first move of the root was
+				q = Request{Nodes: 2 + rng.IntN(60), NoOutput: tt < 32000}
+				if k == 1 {
+					q = Request{Depth: 1, Nodes: 20000, NoOutput: tt < 32000}
+				}
+			}
+			c.one(cs, &root, s, q, lcs[wk], wk)
 		}
 		// the same engine must be searchable again on a fresh position, with a legal result
 		fr, fk := RandomRoot(rng, "fresh")
